@@ -72,7 +72,7 @@ func (g *Gen) stmt(o *out, sc *Scope, depth int) {
 		g.stat("y")
 		o.line("y(%d)", g.yk)
 	}
-	k := g.n(33)
+	k := g.n(34)
 	if depth <= 0 && k >= 8 && k <= 17 {
 		k = g.n(8)
 	}
@@ -148,6 +148,8 @@ func (g *Gen) stmt(o *out, sc *Scope, depth int) {
 		g.redeclareStmt(o, sc)
 	case 27:
 		g.argOrderStmt(o, sc)
+	case 28:
+		g.divStmt(o, sc)
 	default:
 		g.assign(o, sc)
 	}
@@ -1000,4 +1002,18 @@ func (g *Gen) argOrderStmt(o *out, sc *Scope) {
 		o.line("emit(\"ao\", ao(%s))", a)
 	}
 	g.stat("arg-order")
+}
+
+// divStmt: an integer division or remainder whose divisor may be zero (a deterministic
+// run-time panic), alone in its statement.
+func (g *Gen) divStmt(o *out, sc *Scope) {
+	t := g.scalarOf(KInt)
+	b := g.lit(t)
+	if g.n(3) == 0 {
+		b = t.Name + "(0)"
+	}
+	name := g.newName(sc)
+	o.line("%s := id(%s) %s id(%s)", name, g.lit(t), []string{"/", "%"}[g.n(2)], b)
+	g.declare(sc, name, t)
+	g.stat("div-may-panic")
 }
